@@ -4,8 +4,8 @@ SPEC = {
     "coq_targets": ["theories/Wire/Props_C02.vo", "theories/Wire/Cases_C02.vo", "theories/Wire/Findings_C02.vo"],
     "props": "theories/Wire/Props_C02.v",
     "harness": [
-        {"bin": "h_wire_views", "n": {"quick": 304, "thorough": 4000}, "args": ["--mode", "full"]},
-        {"bin": "h_wire_views", "n": {"quick": 3200, "thorough": 80000}, "args": ["--mode", "sizes"]},
+        {"bin": "h_wire_views", "n": {"quick": 256, "thorough": 4000}, "args": ["--mode", "full"]},
+        {"bin": "h_wire_views", "n": {"quick": 2400, "thorough": 80000}, "args": ["--mode", "sizes"]},
     ],
     "rule": "mode full: structured SCION packets (path type x address nibbles x segment lengths x header-length +-1 x payload kinds UDP/SCMP/other), standalone path / field / UDP / SCMP buffers, truncated at field boundaries +-1; every view kind constructed, every safe accessor run, 1-4 safe mutators interleaved with accessors, all under catch_unwind; mode sizes: construction results only, sampled from the product of the size-determining fields x truncation points; a case is non-trivial when the constructor accepts; distinct by full case text",
     "assumptions": ["undefined behaviour of a release build is not observable in the model: out-of-range accesses are modelled as Panic and shown unreachable",
